@@ -331,6 +331,30 @@ func (m *Decisions) AfterScan(ctx *h.ScanCtx) []h.Violation {
 						onlyRemoval = false
 					}
 				}
+				// failing get / update calls on untainted nodes: the controller makes up for a failed taint
+				// with the next-oldest node, so the count still has to reach the band's number whenever
+				// enough nodes without a failure remain
+				onlyTaintWrites := true
+				for _, e := range ctx.Entries {
+					if e.Err == "injected" && e.Op != sim.OpK8sGet && e.Op != sim.OpK8sUpdate {
+						onlyTaintWrites = false
+					}
+				}
+				if onlyTaintWrites && !onlyRemoval && len(g.U) >= g.Min && d.Edge == "" && !d.Starve && !d.MaxAge && !g.Spec.Opts.ScaleOnStarve && len(g.T) == 0 && len(g.F) == 0 {
+					healthy := 0
+					for _, n := range g.U {
+						if !o.failedNodes[n.Name] {
+							healthy++
+						}
+					}
+					if healthy >= d.TaintWant {
+						ctx.H.Cov["c06.band-checked-under-taint-failures"]++
+						if len(o.adds)+o.noopAdds != d.TaintWant {
+							add("C06", "C06/band/"+d.Class+"/under-taint-failure", fmt.Sprintf("group %s: a taint write failed in this scan, %d untainted nodes had no failure; utilisation is in the %s band with |U|=%d min=%d: expected %d taints, saw %d",
+								g.Name, healthy, d.Class, len(g.U), g.Min, d.TaintWant, len(o.adds)))
+						}
+					}
+				}
 				if onlyRemoval && len(g.U) >= g.Min && d.Edge == "" && !d.Starve && !d.MaxAge && !g.Spec.Opts.ScaleOnStarve {
 					ctx.H.Cov["c06.band-checked-under-removal-faults"]++
 					if len(o.adds)+o.noopAdds != d.TaintWant {
